@@ -79,6 +79,10 @@ def run(ctx):
             A, U, V = spectral_problem(rng, m, n, [s for s in sv])
             problems.append(('spectral', m, n, A, sv, U, V))
         problems.append(('integer', m, n, qx.rand_int(rng, m, n, -2, 2), None, None, None))
+        if (m, n) in ((2, 2), (3, 2), (2, 3)) or not ctx.quick():
+            for e in (-40, 40):          # tiny and huge overall scale (exact powers of two)
+                sv = [Fraction(2) ** e * v for v in [2, 1, Fraction(1, 2)][:r]]
+                A, U, V = spectral_problem(rng, m, n, sv); problems.append((f'spectral-scaled-2^{e}', m, n, A, sv, U, V))
     gammas = [Fraction(1, 2), Fraction(1)] if ctx.quick() else [Fraction(1, 4), Fraction(1, 2), Fraction(3, 4), Fraction(1)]
     for (cls, m, n, A, sv, U, V) in problems:
         An = qx.to_np(A); f2 = qx.frob2(A)
@@ -114,9 +118,9 @@ def run(ctx):
                     Xs = qx.mm(qx.mm(V, D), qx.herm(U))
                     if qx.maxabs(qx.sub(Xs, Xe)) > Fraction(1, 10 ** 8) * max(1, qx.maxabs(Xs)): viol('C03:damped:recurrence', f'X_{K} is not V diag(t_k/s) U^H with t <- t(1+gamma(1-t))', inp, float(qx.maxabs(qx.sub(Xs, Xe))))
                     e1 = sum(s * s * (1 - t) ** 2 for s, t in zip(sv, ts))
-                    if abs(sq(E1[-1]) - e1) > Fraction(1, 10 ** 7) * e1 + Fraction(1, 10 ** 18): viol('C03:damped:residual-formula', '||AXA-A||^2 != sum s^2 (1-t)^2', inp, E1[-1] ** 2, float(e1))
+                    if abs(sq(E1[-1]) - e1) > Fraction(1, 10 ** 7) * e1 + Fraction(1, 10 ** 18) * min(1, tot): viol('C03:damped:residual-formula', '||AXA-A||^2 != sum s^2 (1-t)^2', inp, E1[-1] ** 2, float(e1))
                 ctx.count(('damped', cls, m, n, str(g), variant, [a.t() for row in A for a in row]), K >= 2, sample=dict(inp0, gamma=str(g), K=K) if cls == 'spectral' and (m, n) == (3, 2) and len(ctx.cov['samples']) < 2 else None)
-                if variant == 'dense' and (f2 == 0 or max(len(str(Fraction(c).denominator)) for row in A for a in row for c in a.t()) < 12):
+                if variant == 'dense' and cls != 'spectral' + '-scaled' and not cls.startswith('spectral-scaled') and (f2 == 0 or max(len(str(Fraction(c).denominator)) for row in A for a in row for c in a.t()) < 12):
                     h = '[' + '; '.join('(' + ', '.join(Ql(sq(x)) for x in (cov[i], res['AXA-A'][i], res['XAX-X'][i], res['AX-herm'][i], res['XA-herm'][i])) + ')' for i in range(K)) + ']'
                     dterms.append(f'({m}%nat, {n}%nat, {Ql(g)}, {K}%nat, {qmat_lit(A)}, {h}, {qmat_lit(Xe)})')
         # tracking off: same iterates
@@ -140,7 +144,7 @@ def run(ctx):
             Xs = qx.mm(qx.mm(V, D), qx.herm(U))
             if qx.maxabs(qx.sub(Xs, Te)) > Fraction(1, 10 ** 8) * max(1, qx.maxabs(Xs)): viol('C03:third:recurrence', 'third-order iterate is not V diag(t_k/s) U^H with t <- 1-(1-t)^3', inp0, float(qx.maxabs(qx.sub(Xs, Te))))
         ctx.count(('third', cls, m, n, [a.t() for row in A for a in row]), True)
-        if f2 == 0 or max(len(str(Fraction(c).denominator)) for row in A for a in row for c in a.t()) < 12:
+        if not cls.startswith('spectral-scaled') and (f2 == 0 or max(len(str(Fraction(c).denominator)) for row in A for a in row for c in a.t()) < 12):
             h = '[' + '; '.join('(' + ', '.join(Ql(sq(res3[k][i])) for k in ('AXA-A', 'XAX-X', 'AX-herm', 'XA-herm')) + ')' for i in range(K3)) + ']'
             tterms.append(f'({m}%nat, {n}%nat, {K3}%nat, {qmat_lit(A)}, {h}, {qmat_lit(Te)})')
         # stop rule: stops at the first k whose maximal residual is below tol, returns that iterate, bound on the distance to A^+
